@@ -251,6 +251,133 @@ fn body(c: &MigCase, ctx: &mut CaseCtx) -> PropResult {
     Ok(())
 }
 
+// ---------------------------------------------------------------------------
+// context independence: what surrounds the instance in the file must not change how it migrates
+
+#[derive(Clone, Debug, Serialize, Deserialize)]
+pub struct CtxCase {
+    pub base: MigCase,
+    /// 0 nested under a same-class parent that migrates too; 1 after another class that sets the new
+    /// property explicitly; 2 two levels deep under a parent carrying both spellings; 3 between same-class
+    /// siblings (legacy-only before, explicit-only after)
+    pub context: u8,
+    pub other_class: Option<String>,
+}
+
+fn other_value(v: &GVal) -> GVal {
+    match v {
+        GVal::Enum(x) => GVal::Enum(if *x == 4 { 3 } else { 4 }),
+        GVal::BrickColor(x) => GVal::BrickColor(if *x == 21 { 23 } else { 21 }),
+        GVal::Bool(b) => GVal::Bool(!*b),
+        GVal::ContentId(s_) => GVal::ContentId(format!("rbxassetid://other{}", s_.len())),
+        other => other.clone(),
+    }
+}
+
+fn context_forest(c: &CtxCase, new_name: &str, target_ty: &Ty) -> GForest {
+    let b = &c.base;
+    let m = forest_of(b, new_name).nodes.remove(0);
+    let node = |parent: Option<usize>, class: &str, name: &str, props: Vec<(String, GVal)>| GNode { parent, class: class.to_string(), name: name.to_string(), props };
+    let legacy_other = (b.legacy.clone(), other_value(&b.value));
+    let explicit_other = (new_name.to_string(), explicit_for(target_ty, 5));
+    let mut nodes = match c.context % 4 {
+        0 => vec![node(None, &b.class, "parent", vec![legacy_other]), GNode { parent: Some(0), ..m }, node(Some(0), &b.class, "sibling", vec![])],
+        1 => {
+            let oc = c.other_class.clone().unwrap_or_else(|| b.class.clone());
+            vec![node(None, &oc, "before", vec![explicit_other]), GNode { parent: None, ..m }, node(None, &oc, "after", vec![legacy_other])]
+        }
+        2 => vec![
+            node(None, "Folder", "top", vec![]),
+            node(Some(0), &b.class, "parent", vec![legacy_other, explicit_other]),
+            GNode { parent: Some(1), ..m },
+        ],
+        _ => vec![node(None, &b.class, "before", vec![legacy_other]), GNode { parent: None, ..m }, node(None, &b.class, "after", vec![explicit_other])],
+    };
+    // names are unique: the instance under test is "m"
+    for n in nodes.iter_mut() {
+        if n.name != "m" && n.name == "m" {
+            n.name = "x".into();
+        }
+    }
+    let mut f = GForest { nodes, roots: vec![] };
+    f.roots = f.child_table().0;
+    f
+}
+
+fn find_m(d: &forest::CanonDom) -> Option<Props> {
+    let mut stack: Vec<&forest::CanonInst> = d.roots.iter().collect();
+    while let Some(i) = stack.pop() {
+        if i.name == "m" {
+            return Some(i.props.clone());
+        }
+        stack.extend(i.children.iter());
+    }
+    None
+}
+
+/// The four paths on a whole forest; the result is what the instance named "m" shows.
+fn forest_paths(f: &GForest, legacy_content: bool) -> Vec<(&'static str, Result<Props, String>)> {
+    let m_of = |r: Result<rbx_dom_weak::WeakDom, String>| r.and_then(|d| find_m(&forest::observe(&d)).ok_or_else(|| "instance m not found".to_string()));
+    let built = forest::build(f, BuildMode::Builder, None);
+    let roots = built.root_refs(f);
+    let wb = super::c01::write_binary(&built.dom, &roots, rbx_binary::CompressionType::None).map_err(|e| e.msg).and_then(|b| super::c01::read_binary(&b).map_err(|e| e.msg));
+    let wx = super::c02::write_xml(&built.dom, &roots, rbx_xml::EncodeOptions::default())
+        .map_err(|e| e.msg)
+        .and_then(|b| super::c02::read_xml(&b, rbx_xml::DecodeOptions::default()).map_err(|e| e.msg));
+    let rb = binbuild::encode(&binbuild::complete_columns(f), &binbuild::Plan::plain(), Dialect::implementation()).and_then(|b| super::c01::read_binary(&b.bytes).map_err(|e| e.msg));
+    let mut plan = refxml::DocPlan::plain();
+    plan.contentid_as_content = legacy_content;
+    let rx = super::c02::read_xml(refxml::document(f, &plan).text.as_bytes(), rbx_xml::DecodeOptions::default()).map_err(|e| e.msg);
+    vec![("write-binary", m_of(wb)), ("write-xml", m_of(wx)), ("read-binary", m_of(rb)), ("read-xml", m_of(rx))]
+}
+
+fn context_body(c: &CtxCase, ctx: &mut CaseCtx) -> PropResult {
+    let b = &c.base;
+    let Some(view) = dbview::resolve(&b.class, &b.legacy) else { fail!("harness", "{}.{} does not resolve", b.class, b.legacy) };
+    let Some(mig) = view.migration else { fail!("harness", "{}.{} does not migrate", b.class, b.legacy) };
+    let Some(target) = dbview::resolve(&b.class, &mig.new_property_name) else { return Ok(()) };
+    if oracle::migrate_value(&b.class, &view, &b.value).is_none() {
+        ctx.excluded("value the migration rejects (open finding, probed by the migrations sub-check)");
+        return Ok(());
+    }
+    ctx.label(["context:same_class_parent_migrates", "context:other_class_sets_new_property", "context:nested_under_both_spellings", "context:between_same_class_siblings"][(c.context % 4) as usize]);
+    ctx.nontrivial();
+    let new_name = target.roundtrip.clone();
+    let legacy_content = matches!(b.value, GVal::ContentId(_)) && c.context % 2 == 1;
+    let alone = forest_paths(&forest_of(b, &new_name), legacy_content);
+    let inside = forest_paths(&context_forest(c, &new_name, &target.canonical_ty), legacy_content);
+    // a binary file has one column per class: an instance cannot lack a column a same-class instance
+    // has, so "legacy only" next to a same-class carrier of the new property cannot be written down
+    let same_class_carrier = match c.context % 4 {
+        2 | 3 => true,
+        1 => c.other_class.as_deref().map(|o| o == b.class).unwrap_or(true),
+        _ => false,
+    };
+    for ((pname, a), (_, i)) in alone.iter().zip(inside.iter()) {
+        let Ok(a) = a else { continue };
+        if *pname == "read-binary" && same_class_carrier && b.explicit.is_none() {
+            continue;
+        }
+        match i {
+            Err(e) => fail!(format!("c15:context:path-fails:{pname}"), "{}.{} = {:?} migrates alone through {pname}, but not in context {}: {e}", b.class, b.legacy, b.value, c.context % 4),
+            Ok(i) => ensure!(
+                i == a,
+                format!("c15:context:{pname}"),
+                "{}.{} = {:?} (explicit {:?}) through {pname}: alone the instance shows {:?}, in context {} it shows {:?}",
+                b.class,
+                b.legacy,
+                b.value,
+                b.explicit,
+                a,
+                c.context % 4,
+                i
+            ),
+        }
+        ctx.add_evals(1);
+    }
+    Ok(())
+}
+
 /// Concrete classes that inherit `(decl_class, prop)`.
 fn inheritors(decl: &str) -> Vec<String> {
     dbview::all_class_names()
@@ -327,6 +454,27 @@ pub fn enumerate(ctx: &Ctx) -> Vec<MigCase> {
     out
 }
 
+fn context_cases(ctx: &Ctx) -> Vec<CtxCase> {
+    let base = enumerate(ctx);
+    let mut out = Vec::new();
+    let mut per_prop: BTreeMap<(String, String), usize> = BTreeMap::new();
+    for (i, b) in base.iter().enumerate() {
+        // a handful of values per (class, legacy property): the context is what varies here
+        let n = per_prop.entry((b.class.clone(), b.legacy.clone())).or_default();
+        *n += 1;
+        if *n > ctx.cfg.tier.pick(6, 40) as usize {
+            continue;
+        }
+        let Some(view) = dbview::resolve(&b.class, &b.legacy) else { continue };
+        let others: Vec<String> = inheritors(&view.declared_in).into_iter().filter(|c| *c != b.class).collect();
+        for context in 0..4u8 {
+            let other_class = if others.is_empty() { None } else { Some(others[(i + context as usize) % others.len()].clone()) };
+            out.push(CtxCase { base: b.clone(), context, other_class });
+        }
+    }
+    out
+}
+
 pub fn run(ctx: &Ctx) -> PropertyReport {
     let mut rep = PropertyReport::new(
         "C15",
@@ -338,6 +486,12 @@ pub fn run(ctx: &Ctx) -> PropertyReport {
          exhaustive over the database (thorough tier: all inheriting classes and explicit-value combinations; quick tier: 4 classes per declaration).",
     );
     let sub = crate::engine::replay_subcheck_or_all(ctx);
+    if sub.runs("context") {
+        let cases = if ctx.cfg.replay.is_some() { vec![] } else { context_cases(ctx) };
+        let mut r = ctx.run_list("context", cases, false, context_body);
+        r.notes.push("each migrating instance is placed under a same-class parent that migrates too, after an instance of another class that sets the new property explicitly, two levels deep, and between same-class siblings; through every path it must show what it shows alone".into());
+        rep.push(r);
+    }
     if sub.runs("migrations") {
         let cases = if ctx.cfg.replay.is_some() { vec![] } else { enumerate(ctx) };
         let mut r = ctx.run_list("migrations", cases, ctx.cfg.tier == crate::engine::Tier::Thorough, body);
